@@ -7,7 +7,7 @@
         Clauses_<f>(inst)    the named clauses of the contract, a sequence of <<name, BOOLEAN>>
         InstanceOK_<f>(inst) == all clauses hold
    over an INTEGER-SCALED instance record `inst` (one generated instance + the configuration
-   it was requested with).  Quantities of the unit square are scaled by inst.S (10^6; 10^4
+   it was requested with).  Quantities of the unit square are scaled by inst.U (10^6; 10^4
    for the unscaled CVRPTW whose coordinates reach 150 and times 480), so that every
    integer stays below 2^30.  Real-valued clauses that compare two floats are given the
    explicit slack TolF (in scaled units); clauses about integers are exact.
@@ -18,7 +18,7 @@
      shp      <<[k |-> key, s |-> shape without the batch dimension, dt |-> "float"|"int"|"bool"], ...>>
      ok       the harness could read every tensor it needs (keys present, ranks as expected)
      finite   no NaN, and no infinity except where the contract allows one (MTVRP defaults)
-     S        scale; lo, hi  scaled coordinate bounds [min_loc, max_loc] of the configuration
+     U        scale (units per 1.0); lo, hi  scaled coordinate bounds [min_loc, max_loc] of the configuration
 
    Where an environment module spec/env/<X>.tla exists whose InstanceOK is the assumption
    under which the environment model was proven dead-end free, the clause "env-assumption"
@@ -94,7 +94,7 @@ InstanceOK_atsp(inst) == AllHold(Clauses_atsp(inst))
 \* dem[j] = demand * capacity rounded (demInt: it IS an integer), cap = emitted capacity,
 \* capCfg = requested capacity override (0: none -> table), minDem..maxDem requested demand range
 Exp_cvrp(inst) == << <<"locs", <<inst.N, 2>>, FL>>, <<"depot", <<2>>, FL>>, <<"demand", <<inst.N>>, FL>>,
-                     <<"capacity", <<1>>, FL>> >>
+                     <<"capacity", <<1>>, NUM>> >>
 Val_cvrp(inst) ==
   << <<"coords-in-bounds", Coords(inst, inst.xs)>>,
      <<"depot-in-bounds", Coords(inst, inst.dep)>>,
@@ -140,7 +140,7 @@ Clauses_op(inst) == Frame(inst, Exp_op(inst),
      <<"prize-type", CASE inst.ptype = "const" -> InRange(inst.prize100, 100, 100)
                        [] inst.ptype = "dist" -> \E j \in DOMAIN inst.prize100 : inst.prize100[j] = 100
                        [] OTHER -> TRUE>>,
-     <<"max-length-value", inst.L = (IF inst.LCfg > 0 THEN inst.LCfg ELSE TourLen(inst.N) * inst.S)>> >>)
+     <<"max-length-value", inst.L = (IF inst.LCfg > 0 THEN inst.LCfg ELSE TourLen(inst.N) * inst.U)>> >>)
 InstanceOK_op(inst) == AllHold(Clauses_op(inst))
 
 (* ------------------------- PCTSP / SPCTSP -------------------------- *)
@@ -152,9 +152,9 @@ Clauses_pctsp(inst) == Frame(inst, Exp_pctsp(inst),
      <<"depot-in-bounds", Coords(inst, inst.dep)>>,
      \* penalty in [0, max_penalty], max_penalty = tour-length estimate * penalty_factor / N
      <<"penalty-in-range", \A j \in 1..inst.N : 0 <= inst.pen[j] /\
-            inst.pen[j] * inst.N <= (TourLen(inst.N) * inst.pf10 * (inst.S \div 10)) + TolF * inst.N>>,
+            inst.pen[j] * inst.N <= (TourLen(inst.N) * inst.pf10 * (inst.U \div 10)) + TolF * inst.N>>,
      \* expected prize uniform on [0, 4/N]
-     <<"prize-in-range", \A j \in 1..inst.N : 0 <= inst.dprize[j] /\ inst.dprize[j] * inst.N <= 4 * inst.S + TolF * inst.N>>,
+     <<"prize-in-range", \A j \in 1..inst.N : 0 <= inst.dprize[j] /\ inst.dprize[j] * inst.N <= 4 * inst.U + TolF * inst.N>>,
      \* realised prize in [0, 2 * expected prize]
      <<"stochastic-prize-in-range", \A j \in 1..inst.N : 0 <= inst.sprize[j] /\ inst.sprize[j] <= 2 * inst.dprize[j] + TolF>> >>)
 InstanceOK_pctsp(inst) == AllHold(Clauses_pctsp(inst))
@@ -247,7 +247,7 @@ Clauses_mtvrp(inst) == Frame(inst, Exp_mtvrp(inst),
      <<"backhaul-in-range", \A j \in CustIx(inst) : inst.bh[j] > 0 => (inst.minBh <= inst.bh[j] /\ inst.bh[j] <= inst.maxBh)>>,
      <<"demand-le-capacity", \A j \in CustIx(inst) : inst.lh[j] + inst.bh[j] <= inst.capO>>,
      <<"capacity-value", inst.capO = (IF inst.capCfg > 0 THEN inst.capCfg ELSE MTVRPCap(inst.N))>>,
-     <<"vehicle-capacity-scaled", inst.vcap = (IF inst.scaleDemand THEN inst.S ELSE inst.capO * inst.S)>>,
+     <<"vehicle-capacity-scaled", inst.vcap = (IF inst.scaleDemand THEN inst.U ELSE inst.capO * inst.U)>>,
      <<"speed-value", inst.speed = inst.speedCfg>>,
      <<"tw-all-or-none", HasTW(inst) \/ NoTW(inst)>>,
      <<"depot-window", inst.tws[1] = 0 /\ inst.svc[1] = 0 /\ (inst.twe[1] = inst.H \/ (NoTW(inst) /\ inst.twe[1] = -1))>>,
